@@ -449,6 +449,23 @@ def verdicts (st : DState) (op : String) (args : List String) (goRes : String) :
            | _, _ => [("C04", "join-accept-encrypt-accepts-what-spec-rejects")])
         | _, _ => []
       | none => []
+    | "jart", toks =>
+      -- the join-accept payload as the device sees it: a value the encoder accepts decodes to itself (CFList absent, five
+      -- frequencies, or channel masks without a trailing all-zero mask, which the wire cannot tell from padding)
+      (match parseArgs toks frame with
+       | some p =>
+         (match p.payload with
+          | some (.joinAccept ja) =>
+            let canonical := match ja.cfList with
+              | none => true
+              | some l => (match l.payload with
+                | .channels fs => fs.length == 5 && l.typ != 1
+                | .masks ms => l.typ == 1 && (ms.isEmpty || ms.getLast? != some 0))
+            (match res with
+             | some (_ :: "|" :: out) => if !canonical || out == (fmtFrame p).splitOn " " then [] else [("C01", "join-accept-payload-does-not-decode-to-itself")]
+             | _ => [])
+          | _ => [])
+       | none => [])
     | "decja", toks =>
       match parseArgs toks (do let k ← hex; let p ← frame; pure (k, p)) with
       | some (k, p) =>
